@@ -960,6 +960,10 @@ impl Debug for Encoder<'_> {
     }
 }
 
+#[cfg(googlefonts_fontations_verif)]
+#[path = "/verif/harness/incrate/ivs_builder.rs"]
+mod verif_harness;
+
 #[cfg(test)]
 mod tests {
     use crate::tables::variations::RegionAxisCoordinates;
